@@ -175,12 +175,13 @@ def keywords (kids : List Tree) : List Tree := kids.filter (fun t => t.kind == .
 /-- the commas of an argument-list node -/
 def commasOf (kids : List Tree) : List Tree := kids.filter (fun t => t.kind == .symbol)
 
-/-- `not (n.whitespaces and n.whitespaces.value.strip())` -/
-def blankWs (t : Tree) : Bool := (strip t.ws).isEmpty
+/-- `not (n.whitespaces and '#' in n.whitespaces.value)` -/
+def noComment (w : List Char) : Bool := !(w.contains '#')
+def blankWs (t : Tree) : Bool := noComment t.ws
 
 /-- one turn of the `while` loop: the call `files(<one array, no keywords>)` gets the array's own argument list,
 unless one of the whitespace nodes that would be dropped (of the two brackets, of the array, of the outer
-argument list and of its commas) holds a comment or a continuation -/
+argument list and of its commas) holds a comment -/
 def flattenStep : Tree → Option Tree
   | .node .func fl tx [nm, lp, .node .args afl atx akids aws, rp] ws =>
     match nm with
@@ -188,7 +189,7 @@ def flattenStep : Tree → Option Tree
       if name = "files".toList ∧ (keywords akids).isEmpty then
         match positional akids with
         | [.node .array afl2 atx2 [lb, inner, rb] arrws] =>
-          if blankWs lb && blankWs rb && (strip arrws).isEmpty && (strip aws).isEmpty &&
+          if blankWs lb && blankWs rb && noComment arrws && noComment aws &&
              (commasOf akids).all blankWs && inner.kind == .args then
             some (.node .func fl tx [nm, lp, inner, rp] ws)
           else none
